@@ -288,6 +288,8 @@ def main(tier):
     chk.extra["faults_injected_by_kind"] = kinds
     import fixrel
     fixrel.c11(chk, tier)
+    import pathspec
+    pathspec.run(chk, tier, "C11")
     if meta:
         x = next(iter(meta.values()))
         chk.sample({"fault": x[1], "via": x[2], "document": x[3][:600]})
@@ -299,6 +301,11 @@ def main(tier):
 
 def replay(path):
     rp = json.load(open(path))["replay"]
+    if rp.get("kind") == "pathspec":
+        import pathspec
+        chk = Check("C11", "quick")
+        pathspec.replay(chk, "C11", rp)
+        return chk.finish()
     if rp.get("kind") == "fxfault":
         import fixrel
         return fixrel.replay("C11", rp)
